@@ -6,6 +6,7 @@ func init() {
 		Technique:   "SSA summaries of the parser-stage processors (never drop, never change the line; input line on the error path), error-to-__error__ flow over feasible paths, provenance pairing of extracted field and label, JSON token-kind chains",
 		Explanation: "Decides the structural clauses of the parser stages for all lines: json/logfmt/regexp/pattern return (input line, true) on every path, unpack returns the input line whenever it failed; every extraction error reaches SetError (first error wins); fields are stored under the label they belong to with the membership test the right way round; JSON leaves are exposed by kind without numeric round trips; the JSON path walker's push/pop discipline.",
 		Decided: []string{
+			"PV-INJKEY (shared with C08): the stream key quotes every label value, so extracted fields cannot collide",
 			"PV-PAIR regexp: every mapped capture is exposed (the Set call is guarded by the mapping test only); PV-WHOLE: jsonexpr Path.Equal compares every field of a selector",
 			"LP-CLASS / LP-ERRPATH: JSON, logfmt, regexp, pattern are (Param, AlwaysTrue); unpack (and line_format, shared with C07) return the unchanged line and flag __error__ on failure",
 			"ERR-PROP(SetError) / ERR-LOOP: extraction helpers propagate every callee error; logfmt returns d.Err() after exhausting both scan loops; SetError is first-wins",
